@@ -628,14 +628,10 @@ func lexInsideTag(l *lexer) stateFn {
 
 func lexNegative(l *lexer) stateFn {
 	// is it unary or binary op?
-	// unary if it starts a group ('{' or '(') or an op came just before.
-	var lastType = l.lastEmit.typ
-	if lastType == itemInvalid ||
-		lastType.isOp() ||
-		lastType == itemLeftDelim ||
-		lastType == itemCase ||
-		lastType == itemComma ||
-		lastType == itemLeftParen {
+	// binary if the previous token ends an operand (a value, an identifier, a
+	// data reference part or a closing bracket); unary everywhere else: at the
+	// start of a tag or command, and after an operator, '(', '[', ',' or ':'.
+	if !endsOperand(l.lastEmit.typ) {
 		// is it a negative number?
 		if l.peek() >= '0' && l.peek() <= '9' {
 			l.backup()
@@ -646,6 +642,18 @@ func lexNegative(l *lexer) stateFn {
 		l.emit(itemSub)
 	}
 	return lexInsideTag
+}
+
+// endsOperand reports whether a token of the given type can be the last token
+// of an operand, in which case a following '-' is a subtraction.
+func endsOperand(t itemType) bool {
+	switch t {
+	case itemNull, itemBool, itemInteger, itemFloat, itemString,
+		itemIdent, itemDollarIdent, itemDotIdent, itemQuestionDotIdent,
+		itemDotIndex, itemQuestionDotIndex, itemRightBracket, itemRightParen:
+		return true
+	}
+	return false
 }
 
 // lexSoyDoc emits:
